@@ -4,6 +4,13 @@
 # Usage: selftest/run.sh [name-substring]
 cd "$(dirname "$0")/.."
 [ -x bin/govc ] || ./setup.sh >/dev/null
+# private copies, so that the run is not disturbed by later rebuilds or edits: the verifier binary,
+# and the committed state of /repo (HEAD) as the base the mutants are applied to
+B=/var/tmp/selftest.$$.base
+rm -rf "$B"; mkdir -p "$B/repo"
+cp bin/govc "$B/govc"
+git -C /repo archive HEAD | tar -x -C "$B/repo"
+trap 'rm -rf "$B"' EXIT
 rc=0
 for j in selftest/mutants/*.json; do
   n=$(basename "$j" .json)
@@ -11,9 +18,9 @@ for j in selftest/mutants/*.json; do
   prop=$(jq -r .property "$j"); obl=$(jq -r .obligation "$j")
   S=/var/tmp/selftest.$$.$n
   rm -rf "$S"; mkdir -p "$S"
-  rsync -a --exclude=.git --exclude=stgutgmain --exclude='*.png' /repo/ "$S/repo/"
+  rsync -a --exclude=stgutgmain --exclude='*.png' "$B/repo/" "$S/repo/"
   if ! (cd "$S/repo" && patch -s -p1 < "/verif/selftest/mutants/$n.diff"); then echo "MUTANT $n: patch does not apply"; rc=1; rm -rf "$S"; continue; fi
-  out=$(GOVC_NO_REPLAY=1 VERIF_SCRATCH="$S/scratch" ./bin/govc check --repo "$S/repo" --verif "$(pwd)" --prop "$prop" --no-evidence --replay-dir "$S/replays" 2>&1)
+  out=$(GOVC_NO_REPLAY=1 VERIF_SCRATCH="$S/scratch" "$B/govc" check --repo "$S/repo" --verif "$(pwd)" --prop "$prop" --no-evidence --replay-dir "$S/replays" 2>&1)
   if echo "$out" | grep -q "FAILED-OBLIGATION: .*$obl"; then echo "MUTANT $n: caught ($prop $obl)"; else echo "MUTANT $n: NOT CAUGHT (expected $prop $obl)"; echo "$out" | tail -5; rc=1; fi
   rm -rf "$S"
 done
